@@ -29,6 +29,16 @@ def apply(ss: SourceSet, file, old, new) -> SourceSet | None:
     texts: dict[str, str] = {}
     for f, o, n in zip(file, old, new):
         t = texts.get(f, ss.text(f))
+        if isinstance(o, tuple):
+            # (text, k, count): the k-th (0-based) of exactly `count` occurrences -- for code that two sibling classes share verbatim
+            o, kth, cnt = o
+            if t.count(o) != cnt:
+                return None
+            pos = -1
+            for _ in range(kth + 1):
+                pos = t.index(o, pos + 1)
+            texts[f] = t[:pos] + n + t[pos + len(o):]
+            continue
         if t.count(o) != 1:
             return None
         texts[f] = t.replace(o, n)
